@@ -107,7 +107,7 @@ def run(ctx):
             ctx.notes.append("stopped early on time budget")
             break
         nested = i % 4 == 3
-        tree, mt, srcs = _fetch.gen(rng, nested=nested)
+        tree, mt, srcs = _fetch.gen(rng, nested=nested, deprecated=True)
         m = freephil.parse(input_string=mt)
         ss = [freephil.parse(input_string=s) for s in srcs]
         ctx.case((mt, tuple(srcs)), nontrivial=any("=" in s for s in srcs))
